@@ -173,6 +173,19 @@ CHECKS['C09'] = dict(
    technique="TLA+ machines = contract at every position (TLC) + spec->code replay of every document and position",
    ref="5/C09")
 
+CHECKS['C10'] = dict(
+   text="CssDoc.tla builds every stylesheet of up to N segments (six selector shapes incl. pseudo-class, pseudo-element, attribute "
+        "selector with a brace in a string, at-rule with a parenthesised colon; declarations with custom property / SCSS variable "
+        "names and values containing ; { } : in strings, url(a:b), nested parentheses; tight and loose punctuation; comments with "
+        "delimiters; several top-level rules; nesting) with its ground truth and expected scan events. TLC checks at every position "
+        "that the code's stack / pending-property machines for match() and balanced_outward() equal the stack-free contract and that "
+        "the truth slices to the delimiters; the contract for balanced_inward (first node in closing order, chain of first children) "
+        "is computed per position as well. The real scan / match / balanced_outward / balanced_inward are called at every position.",
+   note="Semicolon-terminated declarations (as quantified); inward is not judged between a value's end and its semicolon's end; "
+        "a ';' inside parentheses is known finding F16 (generated in one small instance, matched by a flag the spec computes).",
+   technique="TLA+ machines = contract at every position (TLC) + spec->code replay of every stylesheet and position",
+   ref="5/C10")
+
 NOT_YET = {}
 
 def main():
